@@ -120,6 +120,9 @@ def main():
     os.makedirs(os.path.join(VERIF, "selftest"), exist_ok=True)
     out = os.path.join(VERIF, "selftest", "RESULTS.json")
     prev = []
+    if os.path.exists(out) and not (only or names):
+        kinds = {r.get("kind") for r in results}
+        prev = [r for r in json.load(open(out)) if r.get("kind") not in kinds]  # a --seeded / --fixes run keeps the other kind
     if os.path.exists(out) and (only or names):
         done = {(r.get("kind"), r.get("name") or r.get("commit")) for r in results}
         prev = [r for r in json.load(open(out)) if (r.get("kind"), r.get("name") or r.get("commit")) not in done]
